@@ -497,7 +497,8 @@ def parts(tier):
                         for fin in (True, False):
                             yield (("syn", nform, npts, vi, trail, fin), ())
         # time domains that do not start at 0
-        for xmin in (0.0125, 0.35, -0.5, -2, 0.30000000000000004, 0.4999999999, 0.49999999999999994):
+        # (the last three: a start a few ulps beyond a whole number, on the side away from zero, is not that whole number)
+        for xmin in (0.0125, 0.35, -0.5, -2, 0.30000000000000004, 0.4999999999, 0.49999999999999994, -2.0000000000000004, -1.0000000000000002, -3.00000000000001):
             for nform in (1, 2):
                 for npts in (0, 2):
                     yield (("syn", nform, npts, 0, " ", True, xmin), ())
